@@ -353,9 +353,12 @@ func agreeTimeInt(s ref.Schema, d ref.Datum, t time.Time, dir agreeDir, path str
 		}
 		return nil
 	}
+	// "the integer that decodes back to it at that type's resolution": the time
+	// truncated to the unit (time.Time.Truncate, i.e. rounded down, also before
+	// 1970), which is one definite integer
 	ns := t.UnixNano()
-	if diff := ns - d.I*unit; diff <= -unit || diff >= unit {
-		return fmt.Errorf("%s: time %v (%d ns) written as %s %d = %d ns", path, t.UTC(), ns, lt(s), d.I, d.I*unit)
+	if want := floorDiv(ns, unit); d.I != want {
+		return fmt.Errorf("%s: time %v (%d ns) written as %s %d, the time at that resolution is %d", path, t.UTC(), ns, lt(s), d.I, want)
 	}
 	return nil
 }
